@@ -130,4 +130,56 @@ def wsGen (c : Char) : Bool := Gen.Fields.whitespace.contains c.toNat
 def labelTypes : List (List Char) := (Gen.Fields.tupleTypes.find? (·.1 == "Label")).get!.2.map String.toList
 def capTypes : List (List Char) := (Gen.Fields.tupleTypes.find? (·.1 == "Capacity")).get!.2.map String.toList
 
+/-- `str.rstrip()` -/
+def rstrip (ws : Char → Bool) (l : List Char) : List Char := (l.reverse.dropWhile ws).reverse
+
+theorem dropWhile_append_stop (p : Char → Bool) (a b : List Char) (c : Char) (hc : p c = false) :
+    (a ++ c :: b).dropWhile p = a.dropWhile p ++ c :: b := by
+  induction a with
+  | nil => simp [hc]
+  | cons x t ih =>
+    simp only [List.cons_append, List.dropWhile_cons]
+    split
+    · exact ih
+    · rfl
+
+theorem strip_encode (ws : Char → Bool) (hsep : ws ':' = false) (ty v : List Char)
+    (hl : ∀ c, ty.head? = some c → ws c = false) : strip ws (ty ++ ':' :: v) = ty ++ ':' :: rstrip ws v := by
+  unfold strip rstrip
+  have h1 : (ty ++ ':' :: v).dropWhile ws = ty ++ ':' :: v := by
+    apply dropWhile_head
+    intro c hcq
+    cases ty with
+    | nil => simp at hcq; subst hcq; exact hsep
+    | cons a t => simp at hcq; subst hcq; exact hl a rfl
+  rw [h1]
+  have h2 : (ty ++ ':' :: v).reverse = v.reverse ++ ':' :: ty.reverse := by simp
+  rw [h2, dropWhile_append_stop ws _ _ _ hsep]
+  simp
+
+theorem rstrip_eq_self (ws : Char → Bool) (l : List Char) : rstrip ws l = l ↔ ∀ c, l.getLast? = some c → ws c = false := by
+  unfold rstrip
+  constructor
+  · intro h c hc
+    have : l.reverse.dropWhile ws = l.reverse := by
+      have := congrArg List.reverse h
+      simpa using this
+    cases hr : l.reverse with
+    | nil => simp_all
+    | cons a t =>
+      rw [hr] at this
+      have ha : c = a := by
+        have : l.getLast? = some a := by rw [List.getLast?_eq_head?_reverse, hr]; rfl
+        rw [this] at hc; exact (Option.some.inj hc).symm
+      subst ha
+      simp only [List.dropWhile_cons] at this
+      split at this
+      · have := congrArg List.length this
+        have hl := (List.dropWhile_sublist ws (l := t)).length_le
+        simp at this; omega
+      · rename_i hw; simpa using hw
+  · intro h
+    rw [dropWhile_head ws l.reverse (by intro c hc; apply h; rw [List.getLast?_eq_head?_reverse]; exact hc)]
+    simp
+
 end FimVerif.C03
